@@ -962,6 +962,46 @@ func (e *Exec) evalCall(x ECall, env *Env) Val {
 	if len(x.Args) != len(sf.Params) {
 		e.unsupported("spec function %s expects %d arguments", x.Fun, len(sf.Params))
 	}
+	if sf.Defined {
+		// uninterpreted symbol + definitional axiom (stated once per script, triggered on applications of the symbol)
+		var sorts []Sort
+		var terms []string
+		for i, p := range sf.Params {
+			srt, _ := e.resolveType(p.Type, nil)
+			sorts = append(sorts, srt)
+			v := arg(i)
+			if v.S == "nil" {
+				v = e.nilOf(Val{S: srt})
+			}
+			terms = append(terms, v.T)
+		}
+		rs, rt := e.resolveType(sf.Result, nil)
+		f := e.Out.DeclareFun("spec$"+sf.Name, sorts, rs)
+		marker := "defax$" + sf.Name
+		if _, done := e.Out.declared[Sym(marker)]; !done {
+			e.Out.BeginGlobal()
+			defer e.Out.EndGlobal()
+			e.Out.Declare(marker, SBool)
+			n := &Env{e: e, vars: map[string]Val{}, st: e.entry, old: e.entry, bound: true}
+			if sf.Pkg != "" {
+				if pk := e.P.ByPath[sf.Pkg]; pk != nil {
+					n.home = pk.Types
+				}
+			}
+			var binders, names []string
+			for i, p := range sf.Params {
+				_, ty := e.resolveType(p.Type, n.home)
+				nm := Sym("d$" + sf.Name + "$" + p.Name)
+				binders = append(binders, "("+nm+" "+string(sorts[i])+")")
+				names = append(names, nm)
+				n.vars[p.Name] = Val{T: nm, S: sorts[i], Ty: ty}
+			}
+			body := e.evalSpec(sf.Body, n)
+			app := App(f, names...)
+			e.Out.Assert("(forall (" + strings.Join(binders, " ") + ") (! (= " + app + " " + body.T + ") :pattern (" + app + ")))")
+		}
+		return Val{T: App(f, terms...), S: rs, Ty: rt}
+	}
 	if sf.Body != nil && !(sf.Opaque && !e.reveal[sf.Name]) {
 		// macro expansion in the current state
 		n := &Env{e: e, vars: map[string]Val{}, st: env.st, old: env.old, fr: nil, result: env.result, bound: env.bound, inOld: env.inOld, obs: nil, home: env.home, binders: env.binders}
